@@ -50,9 +50,9 @@ fn cfg_for(c: &Case) -> Cfg {
     cfg.key = c.key;
     if c.self_list != 0 {
         let mut l: Vec<IpAddr> = Vec::new();
+        // only the server addresses the two contexts really use
         for w in [&c.a, &c.b] {
-            l.push(IpAddr::V4(Ipv4Addr::from(w.s4)));
-            l.push(IpAddr::V6(Ipv6Addr::from(w.s6)));
+            l.push(if w.v4 { IpAddr::V4(Ipv4Addr::from(w.s4)) } else { IpAddr::V6(Ipv6Addr::from(w.s6)) });
         }
         match c.self_list {
             2 => {
